@@ -732,10 +732,16 @@ impl Config {
         request: serde_json::from_str(request)
           .map_err(|source| ConfigError::RequestParse { source })?,
       }
-    } else if let Some(path) = matches.get_many::<String>(cmd::SHOW) {
-      Subcommand::Show {
-        path: Self::parse_module_path(path)?,
+    } else if let Some(values) = matches.get_many::<String>(cmd::SHOW) {
+      let path = Self::parse_module_path(values.clone())?;
+
+      if path.path.is_empty() {
+        return Err(ConfigError::ModulePath {
+          path: values.cloned().collect(),
+        });
       }
+
+      Subcommand::Show { path }
     } else if matches.get_flag(cmd::SUMMARY) {
       Subcommand::Summary
     } else if matches.get_flag(cmd::VARIABLES) {
